@@ -320,7 +320,9 @@ def r13_3(ctx):
         ctx.check(f"reg_alias[_NEW {'present' if has_new else 'absent'}] flag", states == exp_state, str(exp_state), str(states), fn_where(idx, ra))
         ctx.check(f"reg_alias[_NEW {'present' if has_new else 'absent'}] Register.is_new", news <= {repr(has_new)} and news, repr(has_new), str(news), fn_where(idx, ra))
     # assignment to a predicate register
-    for isa, exp in (("P0", ("pred_write", "get_pred_num")), ("P3", ("pred_write", "get_pred_num")), ("Pd", ("pred_write", -1)), ("Pe", ("pred_write", -1)), ("Rd", None), ("Rdd", None), (None, None)):
+    # (alias registers carry their lower-cased alias as ISA name: pc, pktcount ... are no predicates)
+    for isa, exp in (("P0", ("pred_write", "get_pred_num")), ("P3", ("pred_write", "get_pred_num")), ("Pd", ("pred_write", -1)), ("Pe", ("pred_write", -1)), ("Rd", None), ("Rdd", None), (None, None),
+                     ("pc", None), ("pktcount", None), ("gp", None), ("usr", None), ("Cd", None), ("Mu", None), ("Vd", None), ("Qd", None)):
         r = Runner(idx)
         def items():
             if isa is None:
@@ -380,3 +382,28 @@ def r13_5(ctx):
             ctx.check("per-part order (translated part)", ok, "reset < transform < get_meta (no reset in between)", str([n for n in names if n and n.startswith('self.transformer')]), fn_where(idx, fi))
             checked += 1
     ctx.need(checked >= 2, "loop body paths of transform_insn not recognised")
+    # the record returned for this call is built from this call's own parts (never a stored earlier result)
+    rets = [p for p in ps if p.outcome == "return"]
+    ctx.need(rets, "transform_insn has no returning path")
+    for p in rets:
+        kinds = [(e.kind, call_tail(e.node) if e.kind == "call" else None) for e in p.events]
+        has_loop = any(k == "loop" for k, _ in kinds)
+        i_loop = next((i for i, (k, _) in enumerate(kinds) if k == "loop"), None)
+        i_rec = next((i for i, (k, t) in enumerate(kinds) if k == "call" and t == "RZILInstruction"), None)
+        ok = has_loop and i_rec is not None and i_loop < i_rec
+        guards = [("" if pol else "not ") + U(g) for g, pol in p.guards]
+        ctx.check("every returning path of transform_insn runs the per-part loop and builds its record from it", ok, "loop over the parts, then RZILInstruction(insn, rzil, meta, trees)",
+                  f"path under {guards[:3]} returns {U(p.value)[:50] if p.value is not None else None} without " + ("the per-part loop" if not has_loop else "building a record"), fn_where(idx, fi), nontrivial=False)
+    recs = [e.node for p in rets for e in p.events if e.kind == "call" and call_tail(e.node) == "RZILInstruction"]
+    # which list receives get_meta() in the loop?  that list must be the record's attribute argument
+    sinks = {U(n.func.value) for n in ast.walk(fi.node) if isinstance(n, ast.Call) and isinstance(n.func, ast.Attribute) and n.func.attr == "append" and n.args
+             and isinstance(n.args[0], ast.Call) and call_tail(n.args[0]) == "get_meta"}
+    ctx.need(len(sinks) == 1, f"transform_insn: list receiving get_meta() not identified ({sorted(sinks)})")
+    ctor_params = [a.arg for a in idx.func("RZILInstruction.__init__").node.args.args[1:]]
+    ctx.need("meta" in ctor_params, f"RZILInstruction.__init__ has no meta parameter: {ctor_params}")
+    for c in recs[:1]:
+        args = [U(a) for a in c.args]
+        kw = {k.arg: U(k.value) for k in c.keywords}
+        i = ctor_params.index("meta")
+        got = args[i] if i < len(args) else kw.get("meta")
+        ctx.check("the record carries the per-part attribute list filled in the loop", got in sinks, f"meta argument = {sorted(sinks)[0]}", str(got), fn_where(idx, fi))
